@@ -86,6 +86,10 @@ def exact_oracle(res, scn):
         # must fail
         if trunc < scn["c02"]["head_len"]:
             w.violate("C02", f"{pre}:truncated-head-accepted", {"trunc": trunc})
+        elif plan.get("trunc_kind") == "reset" and out.get("complete"):
+            # a connection reset is not a terminator: it must surface as an error
+            w.violate("C02", f"{pre}:reset-close-delimited-body-completed-normally",
+                      {"trunc": trunc, "got_len": len(out.get("body", b""))})
         return
     if out.get("complete"):
         w.violate("C02", f"{pre}:truncated-{framing}-body-completed-normally",
@@ -181,7 +185,8 @@ register("C02", {
             "count as non-trivial; distinct = distinct event-log digest",
     "assumptions": ["the segmentation and truncation sweeps are single-caller; the "
                     "multiplexed family judges equality of status, headers and body only",
-                    "close-delimited bodies are excluded from the truncation oracle"],
+                    "a close-delimited body cut short by EOF cannot be told from a complete one "
+                    "and is not judged; one cut short by a reset must fail"],
 }, [ExactFamily(600, 12000),
     # the same exactness for responses that share a connection: 2-5 callers on multiplexed
     # HTTP/2 connections (frames of several streams in one read, every segmentation mode)
